@@ -123,8 +123,11 @@ type PKI struct {
 	Expired    *Ident   // right CA, right name, validity ended before the bubble epoch
 	SelfSigned *Ident   // right name, self-signed
 	Foreign    *Ident   // right name, foreign CA
-	ViaInter   *Ident   // wrong leaf name, chained through the intermediate that carries the right name
-	RuleName   string
+	// a server identity issued by an authority of its own (not the one configured for client certificates), whose
+	// certificate file holds the full chain (leaf + issuer), and a client certificate issued by that authority
+	ServerCA, ChainedServer, ViaServerCA *Ident
+	ViaInter                             *Ident // wrong leaf name, chained through the intermediate that carries the right name
+	RuleName                             string
 }
 
 var pki *PKI
@@ -153,6 +156,10 @@ func GetPKI() *PKI {
 		p.NearNames = append(p.NearNames, newIdent(fmt.Sprintf("near%d", i), cn, false, p.CA, nb, na, int64(20+i)))
 	}
 	p.SANName = newIdentSAN("sanname", "intruder.verif", []string{p.RuleName, "*.verif", "localhost"}, false, p.CA, nb, na, 11)
+	p.ServerCA = newIdent("server-ca", "server issuing authority", true, nil, nb, na, 40)
+	p.ChainedServer = newIdent("chained-server", "localhost", false, p.ServerCA, nb, na, 41)
+	p.ChainedServer.Chain = [][]byte{p.ChainedServer.DER, p.ServerCA.DER}
+	p.ViaServerCA = newIdent("via-server-ca", p.RuleName, false, p.ServerCA, nb, na, 42)
 	pki = p
 	return p
 }
@@ -161,6 +168,7 @@ func GetPKI() *PKI {
 func (p *PKI) ClientConfig(id *Ident) *tls.Config {
 	pool := x509.NewCertPool()
 	pool.AddCert(p.CA.Cert)
+	pool.AddCert(p.ServerCA.Cert)
 	cfg := &tls.Config{RootCAs: pool, ServerName: "localhost", MinVersion: tls.VersionTLS12}
 	if id != nil {
 		c := id.TLSCert()
